@@ -164,32 +164,7 @@ func decodeScopeBounds(r *Run, rule string) int {
 				r.Bad(rule, ob.Key, ob.In.Pos(), "cannot prove "+strings.Join(failed, " and ")+" on every path: decoding untrusted bytes can panic here", factStrings(facts)...)
 			}
 		}
-		// stdlib preconditions: PutUintNN(b, v) needs len(b) >= NN/8
-		eachInstr(fn, func(in ssa.Instruction) {
-			c, ok := in.(*ssa.Call)
-			if !ok {
-				return
-			}
-			name := calleeName(&c.Call)
-			need := int64(0)
-			switch {
-			case strings.HasSuffix(name, ".PutUint16"):
-				need = 2
-			case strings.HasSuffix(name, ".PutUint32"):
-				need = 4
-			case strings.HasSuffix(name, ".PutUint64"):
-				need = 8
-			}
-			if need == 0 || !strings.Contains(name, "encoding/binary") {
-				return
-			}
-			n++
-			buf := c.Call.Args[len(c.Call.Args)-2]
-			l := fa.linSym(lenOf(fa.Sym(buf)), 0)
-			facts := fa.FactsAt(c, l)
-			key := fmt.Sprintf("%s: %s needs len(%s) >= %d", fnName(fn), name, valStr(buf), need)
-			r.Check(EntailsLE(facts, linConst(need), l), rule, key, c.Pos(), "the buffer may be shorter than the integer written: index out of range", append(factStrings(facts), "len = "+l.String())...)
-		})
+		n += putPreconditions(r, fn, rule)
 	}
 	return n
 }
@@ -808,4 +783,38 @@ func consumingLoop(p *Prog, h *ssa.BasicBlock, body map[*ssa.BasicBlock]bool) (s
 		}
 	}
 	return "", false
+}
+
+// putPreconditions: stdlib preconditions in fn — binary.ByteOrder.PutUintNN(b, v) needs len(b) >= NN/8 (an inlined
+// bounds check the slice/index enumeration does not see).
+func putPreconditions(r *Run, fn *ssa.Function, rule string) int {
+	n := 0
+	fa := r.P.FA(fn)
+	eachInstr(fn, func(in ssa.Instruction) {
+		c, ok := in.(*ssa.Call)
+		if !ok {
+			return
+		}
+		name := calleeName(&c.Call)
+		need := int64(0)
+		switch {
+		case strings.HasSuffix(name, ".PutUint16"):
+			need = 2
+		case strings.HasSuffix(name, ".PutUint32"):
+			need = 4
+		case strings.HasSuffix(name, ".PutUint64"):
+			need = 8
+		}
+		if need == 0 || !strings.Contains(name, "encoding/binary") {
+			return
+		}
+		n++
+		r.BoundsPos[r.P.Pos(c.Pos())] = true
+		buf := c.Call.Args[len(c.Call.Args)-2]
+		l := fa.linSym(lenOf(fa.Sym(buf)), 0)
+		facts := fa.FactsAt(c, l)
+		key := fmt.Sprintf("%s: %s needs len(%s) >= %d", fnName(fn), name, valStr(buf), need)
+		r.Check(EntailsLE(facts, linConst(need), l), rule, key, c.Pos(), "the buffer may be shorter than the integer written: index out of range", append(factStrings(facts), "len = "+l.String())...)
+	})
+	return n
 }
